@@ -42,7 +42,7 @@ PeerOf(s) == CASE s \in FaultFree -> "accept" [] s = "refused" -> "refuse" [] s 
                [] s = "release" -> "late" [] s = "mute" -> "mute" [] s = "garbage" -> "garbage" [] OTHER -> "none"
 Promised(peer) == CASE peer = "refuse" -> ECONNREFUSED [] peer = "silent" -> ETIMEDOUT [] peer = "garbage" -> EPROTO [] OTHER -> 0
 
-ApiOps == {"sv", "cn", "ac", "acx", "f", "s", "r", "a", "fd", "ga", "sa", "cl", "vc", "vf", "vx"}
+ApiOps == {"sv", "cn", "cx", "ac", "acx", "f", "s", "r", "a", "fd", "ga", "sa", "cl", "vc", "vf", "vx"}
 
 \* every API call on these non-blocking sockets
 StepApi(ln) ==
